@@ -618,18 +618,24 @@ def find_definite_isometry(partial_map, force_oriented=False):
         pmap = pmap.reshape((len(pmap), 1))
     h, w = pmap.shape[-2:]
     n = max(h, w)
-    if w > h:
+    identity = np.broadcast_to(np.identity(n), pmap.shape[:-2] + (n, n))
+    if w >= h:
         mat = np.concatenate([pmap.swapaxes(-1, -2),
-                             np.identity(n)], axis=-1)
+                             identity], axis=-1)
     else:
-        mat = np.concatenate([pmap, np.identity(n)], axis=-1)
+        mat = np.concatenate([pmap, identity], axis=-1)
 
     q, r = np.linalg.qr(mat)
 
-    iso = np.sign(r[..., 0,0]) * q
+    # the rows of iso span the flag
+    iso = (np.sign(r[..., :1, :1]) * q).swapaxes(-1, -2)
 
     if force_oriented:
         iso = make_orientation_preserving(iso)
+
+    if h > w:
+        # vectors given as columns: return the frame as columns as well
+        iso = iso.swapaxes(-1, -2)
 
     return iso
 
